@@ -38,7 +38,7 @@ ASSUMPTIONS = [
     "parameter-validation errors are not generated",
 ]
 
-ASYNC_CLOSEABLE = ("agen", "aclass", "aplain", "agenlike", "aproxy", "areiter", "alateclose", "agencoro", "aclass_awaitable")
+ASYNC_CLOSEABLE = ("agen", "aclass", "aplain", "agenlike", "aproxy", "areiter", "alateclose", "agencoro", "aclass_awaitable", "aclass_cm")
 ALL = [t for t in ITER_TOOLS if t != "tee"] + AGG_TOOLS
 
 
@@ -49,7 +49,7 @@ def cases(draw, name, tier, many=False):
     if name != "iter_sentinel":
         for s in case["srcs"]:
             s["fl"] = draw(st.sampled_from(["agen", "agen", "aclass", "aplain", "aclass_noclose", "agenlike",
-                                             "aproxy", "areiter", "alateclose", "agencoro", "aclass_awaitable"]))
+                                             "aproxy", "areiter", "alateclose", "agencoro", "aclass_awaitable", "aclass_cm"]))
             s["eqsrc"] = draw(st.sampled_from([False] * 3 + [True, "unhashable"]))
             s["falsy"] = draw(st.integers(0, 3)) == 0
             if draw(st.integers(0, 5)) == 0 and s["fl"] not in ("agen", "aclass_noclose", "areiter"):
